@@ -286,8 +286,8 @@ func mutateKeyword(r *rand.Rand, v any) bool {
 	return true
 }
 
-// FlattenCanon returns a canonical rendering of the document's flattened form (nodes sorted by @id, values of a
-// property kept in order) as computed by json-gold run independently in the harness; used only to verify that two
+// FlattenCanon returns a canonical rendering of the document's flattened form (nodes sorted by @id, the values
+// of every property sorted) as computed by json-gold run independently in the harness; used only to verify that two
 // documents generated by the harness denote the same graph before they are given to the code under test.
 func FlattenCanon(text string) (string, error) {
 	v, ok := ReadableJSON(text)
@@ -308,8 +308,15 @@ func FlattenCanon(text string) (string, error) {
 	})
 	for _, n := range arr {
 		if m, ok := n.(map[string]any); ok {
-			if ts, ok := m["@type"].([]any); ok {
-				sort.Slice(ts, func(i, j int) bool { return fmt.Sprint(ts[i]) < fmt.Sprint(ts[j]) })
+			for _, k := range SortedKeys(m) {
+				// the values of a property (and the types of a node) are sets
+				if vs, ok := m[k].([]any); ok {
+					sort.Slice(vs, func(i, j int) bool {
+						a, _ := json.Marshal(vs[i])
+						b, _ := json.Marshal(vs[j])
+						return string(a) < string(b)
+					})
+				}
 			}
 		}
 	}
